@@ -28,6 +28,10 @@ CHECKS = {
    text="truth-table oracle: for every nested pair outer{inner{rule}} the set of media environments (type x truth values of 3 opaque features) satisfying the emitted structure (merged list, nested lists, or nothing) must equal sat(outer) & sat(inner); ALL ordered pairs of single queries over 4 types x 3 modifiers x 2^3 feature subsets are enumerated (minus the exclusions in the quantifier), query lists, triples, interpolated and upper-case spellings are sampled",
    note="features are opaque booleans; `only` is a no-op; query text outside the input fragment counts as altered text",
    technique="runtime monitoring: exhaustive reference-model (truth table) oracle over compiled outputs read by an independent CSS reader"),
+ "C09": dict(engine="vw+vp",
+   text="algebraic-law monitor over a universe of ~100 representative value expressions: ALL ordered pairs are evaluated inside one compilation for ==, !=, map-has-key, map-get, index, map-merge/map-remove/map.set sizes; reflexivity, symmetry, != as negation and agreement of every keyed operation with == are checked on the full matrices, all triples are decided via row equality (a==b must imply identical rows); duplicate-key map literals are compiled pairwise; random map operation sequences are compared with an insertion-ordered association-list model that uses grass's own == answers",
+   note="no table of which values are equal is imposed (laws and cross-operation agreement only); NaN excluded; key sequences compared modulo ==",
+   technique="runtime monitoring: law/invariant oracle over probe-observed truth matrices + association-list reference model for operation histories"),
 }
 
 ALL = ["C%02d" % i for i in range(1, 21)]
